@@ -356,12 +356,19 @@ def jobs(tier):
     wby = items_between(tblock, r'^vpsc_y\.solve\(\);', r'^Rectangle::setYBorder\(yBorder\);', "removeoverlaps [write-back after the y pass]", allow_loop_break=True)
     wby_text = subst(wby, [(r'for_each\(cs\.begin\(\),cs\.end\(\),delete_object\(\)\);', '/* constraints released (not part of this obligation) */', 1),
                            (r'cs\.clear\(\);', '', 1)])
+    # third pass: the `if(thirdPass) { ... }` statement of the try block; inside it, everything after vpsc_x2.solve()
+    tp_items = [it for it in vf_split_items(tblock) if it[0] == 'compound' and re.match(r'\s*if\s*\(\s*thirdPass\s*\)', strip_comments(it[1]).strip())]
+    if len(tp_items) != 1:
+        raise Undecided("C09: removeoverlaps: expected one `if(thirdPass) {...}` statement in the try block, found %d" % len(tp_items))
+    tpblock = Slice("removeoverlaps [third-pass block]", ro.rel, "{" + tp_items[0][2] + "}", ro.line, kind="block")
+    wb3 = items_between(tpblock, r'^vpsc_x2\.solve\(\);', None, "removeoverlaps [write-back after the third pass]", allow_loop_break=True)
     mshim = ("    void moveCentreX(double x) { w_moved((void *)this, 0, x); }\n    void moveCentreY(double y) { w_moved((void *)this, 1, y); }\n")
     wb_cxx = ("#include <set>\n" + base + 'extern "C" { void w_moved(void *r, int dim, double to); void *malloc(size_t); }\n' + c01.EXTERN + vp + rect_pre.replace("@RECT_INLINES@", mshim) +
               "namespace vpsc {\nusing std::set; using std::vector;\n#define ISNOTNAN(d) (d)==(d)\n"
               "// the fragments' free variables are removeoverlaps' parameters and locals\n"
               "static void verif_writeback_x(Rectangles& rs, const set<unsigned>& fixed, bool thirdPass, Variables& vs)\n{ Variables::iterator v;\n" + wbx.text + "\n}\n"
-              "static void verif_writeback_y(Rectangles& rs, const set<unsigned>& fixed, bool thirdPass, Variables& vs)\n{ Variables::iterator v; Rectangles::iterator r;\n" + wby_text + "\n}\n}\n"
+              "static void verif_writeback_y(Rectangles& rs, const set<unsigned>& fixed, bool thirdPass, Variables& vs)\n{ Variables::iterator v; Rectangles::iterator r;\n" + wby_text + "\n}\n"
+              "static void verif_writeback_x2(Rectangles& rs, const set<unsigned>& fixed, bool thirdPass, Variables& vs)\n{ Variables::iterator v; Rectangles::iterator r;\n" + wb3.text + "\n}\n}\n"
               "static vpsc::Rectangle *verif_rd[3]; static vpsc::Variable *verif_vd[3];\n"
               'extern "C" int verif_rect_index(void *r) { for (int k = 0; k < 3; ++k) if (r == (void *)verif_rd[k]) return k; return -1; }\n'
               'extern "C" void w_writeback(int pass, unsigned n, double f0, double f1, double f2, unsigned nfixed, unsigned fx0, unsigned fx1, int thirdPass) {\n'
@@ -370,11 +377,11 @@ def jobs(tier):
               "    verif_vd[k]->id = (int)k; verif_vd[k]->finalPosition = F[k]; }\n"
               "  rs._d = verif_rd; rs._n = n; rs._cap = 3; vs._d = verif_vd; vs._n = n; vs._cap = 3;\n"
               "  if (nfixed > 0) fixed.insert(fx0); if (nfixed > 1) fixed.insert(fx1);\n"
-              "  if (pass == 0) vpsc::verif_writeback_x(rs, fixed, thirdPass != 0, vs); else vpsc::verif_writeback_y(rs, fixed, thirdPass != 0, vs); }\n")
-    js.append(Job("removeoverlaps_writes_back_every_rectangle", "B", spec, "h_writeback", cxx=wb_cxx, defines=["JOB_writeback"], slices=[ro, wbx, wby], stub_variant="bounded_set", unwind=5,
+              "  if (pass == 0) vpsc::verif_writeback_x(rs, fixed, thirdPass != 0, vs); else if (pass == 1) vpsc::verif_writeback_y(rs, fixed, thirdPass != 0, vs); else vpsc::verif_writeback_x2(rs, fixed, true, vs); }\n")
+    js.append(Job("removeoverlaps_writes_back_every_rectangle", "B", spec, "h_writeback", cxx=wb_cxx, defines=["JOB_writeback"], slices=[ro, wbx, wby, wb3], stub_variant="bounded_set", unwind=5,
                   flags=["--sat-solver", "cadical", "--no-malloc-may-fail"], backend="sat:cadical", replay=replay_c09, timeout=600,
                   bound="0 to 3 rectangles, a fixed set of 0 to 2 ids below 3 (loops unwound 5 times with unwinding assertions)",
-                  domain="both write-back loops (after the x pass and after the y pass), every final position (all doubles but NaN), with and without the third pass",
+                  domain="all three write-back loops (after the x pass, the y pass and the third pass), every final position (all doubles but NaN), with and without the third pass",
                   expect=[r'h_writeback\.assertion']))
     return js
 
@@ -394,7 +401,7 @@ ASSUMPTIONS = [
     "fixed rectangles: only the link 'generateX/YConstraints sets EVERY variable's desired position to its rectangle's current centre, in every call' is under contract "
     "(loop shells for any number of rectangles + projected loop bodies); that weight 10000 then keeps a fixed rectangle within 1% is solver optimality (C02) and not decided",
     "refine_pass_examines_every_block is a BOUNDED stand-in (up to 3 blocks; Blocks/Block behind stand-ins): one pass of Solver::refine's outer loop ends 'solved' only after every block was examined; that the optimum then keeps fixed rectangles within 1% is C02 and not decided",
-    "removeoverlaps_writes_back_every_rectangle is a BOUNDED stand-in (0 to 3 rectangles; the two write-back loops after the x and y solves, cut out by their neighbouring statements; moveCentreX/Y behind the harness): "
+    "removeoverlaps_writes_back_every_rectangle is a BOUNDED stand-in (0 to 3 rectangles; the three write-back loops after the x, y and third-pass solves, cut out by their neighbouring statements; moveCentreX/Y behind the harness): "
     "every rectangle, fixed or not, is moved once to its variable's final position; the third pass's loops (inside `if(thirdPass)`) are not under it",
     "NOT decided (residue, the headline): the scan line emits a constraint or chain for EVERY overlapping pair; acyclicity of the generated sets; hence 'no two rectangles overlap'",
 ]
